@@ -8,10 +8,14 @@ Property theorems over `Model/Registry.lean` (`identity_registry.rs`) and `Model
 of any length, any number of keys / identities / addresses, any packet (handshake, data, garbage, replay).
 The comparison `expires_at > now` is `Generated.SnapTun.authorizedAt`, regenerated from the Rust source.
 
-WireGuard/Noise is the abstract machine `Wg`; only `attribution` needs a hypothesis about it (`Wg.Sound`:
-"a `Tunn` created for `peer_static` decrypts only traffic authenticated by that key") and takes it as an explicit
-argument.  Everything else holds for *any* `Wg` – i.e. even for a broken WireGuard the server never lets anything
+WireGuard/Noise is the abstract machine `Wg`; only `attribution`, `tunnel_authenticated` and their corollaries need
+a hypothesis about it (`Wg.Sound`: "a `Tunn` created for `peer_static` accepts only traffic authenticated by that
+key") and take it as an explicit argument.  Everything else holds for *any* `Wg` – i.e. even for a broken WireGuard the server never lets anything
 through for a tunnel whose `peer_static` is not authorised at that instant.
+
+Defect found while building this (reproduced on the real code by `hx_snaptun`, fixed in /repo 9197560, the model
+mirrors the fixed code): the server kept a tunnel entry for the static key *claimed* by a handshake initiation even
+when the new tunnel rejected the handshake; `tunnel_authenticated` is the statement that was false.
 
 Not covered by a theorem (see checks/C09.json `level_note`): `update_timers` is not gated by authorisation (gotatun
 emits only keep-alives / handshake initiations there); the rate limiter's cookie reply; the real clock
